@@ -49,7 +49,11 @@ ZOO = {
     "alias_sync_result": {"attrs": [("Given", "lit", "a step returning an aliased result")], "result": True},
     "alias_async_result": {"attrs": [("When", "re", r"^an async step (\d+) returning an aliased result$")], "args": ["i64"], "async": True, "result": True},
     "io_result": {"attrs": [("Then", "lit", "a step returning an io result")], "result": True},
+    "expr_edge_params": {"attrs": [("Then", "expr", "the light is{negation} on and costs {currency}")], "args": ["Negation", "Currency"]},
 }
+
+# #[derive(Parameter)] in the zoo: type -> (regex as written in the attribute, name)
+ZOO_PARAMS = {"Animal": ("cat|dog", "animal"), "Negation": (" not|", "negation"), "Currency": ("\u20ac|\u00a3|\\$", "currency")}
 
 
 def regex_escape(s):
@@ -475,4 +479,18 @@ def r8_entry(F, R):
     c01.r11(F, R)
 
 
-RULES = [("R1", r1, ["default", "all"]), ("R2", r2, ["zoo:default"]), ("R3", r3, ["zoo:default"]), ("R4", r4, ["zoo:default"]), ("R5", r5, ["zoo:default"]), ("R6", r6, ["default", "all"]), ("R7", r7, ["default", "all"]), ("R8", r8_entry, ["default", "all"])]
+def r9(F, R):
+    """`#[derive(Parameter)]` emits the attribute's regex AS WRITTEN (edge whitespace, anchors, escapes untouched) and the given — or
+    lower-cased type — name: the `REGEX` / `NAME` associated constants of the zoo's parameters (read from their MIR) equal the attribute
+    text.  A derive that trims / strips / re-escapes the regex makes `expr =` steps match something else than the expression specifies."""
+    if "cucumber_verif_zoo" not in F.crates:
+        return
+    for ty, (rx, nm) in sorted(ZOO_PARAMS.items()):
+        for cname, want in (("REGEX", rx), ("NAME", nm)):
+            bs = [b for b in F.bodies.values() if b.crate == "cucumber_verif_zoo" and b.name == f"<{ty} as cucumber::Parameter>::{cname}"]
+            got = sorted({unescape_rust(const_str(op)) for b in bs for _, st in b.assigns() for op in A.rvalue_operands(st["rv"]) if const_str(op) is not None})
+            R.check(len(bs) == 1 and got == [want], f"parameter/{ty}/{cname}", bs[0] if bs else None, f"{cname} = {want!r}", f"`#[derive(Parameter)]` on `{ty}` emits {cname} = {got} (attribute says {want!r})")
+    R.floor(6)
+
+
+RULES = [("R1", r1, ["default", "all"]), ("R2", r2, ["zoo:default"]), ("R3", r3, ["zoo:default"]), ("R4", r4, ["zoo:default"]), ("R5", r5, ["zoo:default"]), ("R6", r6, ["default", "all"]), ("R7", r7, ["default", "all"]), ("R8", r8_entry, ["default", "all"]), ("R9", r9, ["zoo:default"])]
